@@ -231,15 +231,19 @@ def _ova_cases(draw):
     K = len(cls)
     lead = draw(st.sampled_from(LEADS))
     n = gen.shape_size(lead) * K * K
-    dtype = draw(st.sampled_from(["int", "int", "float", "float", "uint8", "int16", "int32"]))
+    dtype = draw(st.sampled_from(["int", "int", "float", "float", "uint8", "int16", "int32", "uint64"]))
     if dtype in _NARROW:
         # counts stored in a narrow integer dtype: every entry fits, row / column sums and the trace need not
         top_ = _NARROW[dtype]
         ent = st.one_of(st.just(0), st.integers(0, 12), st.integers(0, top_), st.integers(top_ // 2, top_))
     else:
-        ent = (st.one_of(st.just(0), st.integers(0, 12), st.integers(0, 10**6)) if dtype == "int"
+        ent = (st.one_of(st.just(0), st.integers(0, 12), st.integers(0, 10**6)) if dtype in ("int", "uint64")
                else st.one_of(st.just(0.0), st.integers(0, 40).map(lambda x: x / 4)))
     flat = draw(st.lists(ent, min_size=n, max_size=n))
+    if dtype == "uint64" and n:
+        # counts beyond 2^53 held as unsigned 64-bit integers (e.g. inherited from uint64 weights)
+        flat = [min(v, 10**6) for v in flat]
+        flat[draw(st.integers(0, n - 1))] = draw(st.sampled_from([2**60 + 1, 2**53 + 1, 2**62 + 12345]))
     scale = 1.0
     if dtype == "float":
         # the overall scale of a weighted / normalised matrix is arbitrary
@@ -275,7 +279,7 @@ def check_ova(case):
     lead = tuple(case["lead"])
     dt = np.float64 if case["dtype"] == "float" else np.int64
     A = np.asarray(case["flat"], dtype=dt).reshape(lead + (K, K))
-    A_in = A.astype(case["dtype"]) if case["dtype"] in _NARROW else A  # as stored by the caller
+    A_in = A.astype(case["dtype"]) if case["dtype"] in _NARROW or case["dtype"] == "uint64" else A  # as stored by the caller
     A0 = A_in.copy()
     c = ConfusionMatrix(matrix=A_in, classes=cls)
     o = c.one_vs_all()
